@@ -165,7 +165,7 @@ DEFAULT_FEATURES = dict(
     derived=True, cte=True, order=True, limit=True, offset_no_limit=False, order_expr=True,
     cast=True, concat=True, group_expr=True, where_false=True, case_no_else=False,
     corr_in_sub=False, neg=True, null_lit=True, sum_=True, derived_limit=False, agg_in_list=True, in_sub_expr=True,
-    sorted_join=True,
+    sorted_join=True, join_mixed_key=True,
 )
 
 
@@ -431,7 +431,14 @@ class QueryGen:
                 li = self.cols_of(scope, lambda t: t in INT_TYPES)
                 ri = self.cols_of(s1, lambda t: t in INT_TYPES)
                 conds = []
-                if li and ri and r.random() < 0.85:
+                if li and ri and self.on("join_mixed_key", 0.07):
+                    # the whole condition is one equality whose one side mixes columns of both inputs
+                    # (no equi-join key can be extracted from it)
+                    self.tag("join_mixed_key")
+                    l, rr, l2 = r.choice(li), r.choice(ri), r.choice(li)
+                    side = f"({rr[0]} {r.choice(['+', '-', '*'])} {l2[0]})"
+                    conds.append(f"{l[0]} = {side}" if r.random() < 0.5 else f"{side} = {l[0]}")
+                elif li and ri and r.random() < 0.85:
                     l, rr = r.choice(li), r.choice(ri)
                     if l[1] != rr[1]:
                         if not self.f["mixed_int"]:
@@ -442,7 +449,7 @@ class QueryGen:
                         l2, r2 = r.choice(li), r.choice(ri)
                         conds.append(f"{l2[0]} = {r2[0]}")
                         self.tag("join_multikey")
-                if not conds or r.random() < 0.3:
+                if not conds or (r.random() < 0.3 and "join_mixed_key" not in self.tags):
                     conds.append(self.bool_expr(scope + s1, 1))
                     self.tag("join_residual")
                 sql += f" {k} {t1.name} AS {a1} ON " + " AND ".join(conds)
@@ -522,7 +529,14 @@ class QueryGen:
         if k in ("exists", "not_exists"):
             neg = "NOT " if k == "not_exists" else ""
             corr = f"{r.choice(ints_in)[0]} = {r.choice(ints_out)[0]}"
-            extra = f" AND {self.bool_expr(s, 1)}" if r.random() < 0.4 else ""
+            extra = ""
+            if r.random() < 0.5:
+                # a further conjunct over the inner table, over the outer row only, or over both
+                x = r.random()
+                which = s if x < 0.4 else (scope if x < 0.7 else scope + s)
+                if which is not s:
+                    self.tag("exists_outer_conjunct")
+                extra = f" AND {self.bool_expr(which, 1)}"
             return f"({neg}EXISTS (SELECT 1 FROM {t.name} AS {a} WHERE {corr}{extra}))"
         if k == "scalar":
             if not self.f.get("scalar_sub_where", True):
